@@ -22,7 +22,7 @@ import (
 func init() {
 	Registry["C07"] = &Check{
 		Scenarios: c07Scenarios,
-		Rule: "schedules: W in {2,3} writer threads, 1-2 messages each with sizes from {200 B, 2 KiB, 5 KiB} (below/above the 1 KiB pooled serialisation buffer and the 4 KiB bufio buffer) written to one diam.Conn through Message.WriteTo, Conn.Write with caller-serialised bytes and Message.WriteToStreamWithRetry (rotating per writer and message) over an in-memory transport whose Write stalls between two pieces; every schedule up to the preemption bound (W=2: bound 2 quick / unbounded thorough; W=3: bound 2 / 3), happens-before state caching. faults: every sequence of write outcomes (bytes accepted k in {0,1,n/2,n-1,n} x {temporary - alternately a plain one and one that is also a timeout -, permanent, nil}) of length <= retries+1 for retries 0..3, and of length <=3 for the retry budgets 2^31, 2^32, 2^63, 2^64-2 and 2^64-1 (what a caller passes to mean 'keep retrying'), against writeRetry (io.Writer) and writeStreamRetry (MultistreamWriter), and through a diam.Conn over a faulting transport with two messages of sizes {200+2048, 5000+200, 200+5000, 4116+6000} (below and above the connection's 4 KiB write buffer): the wire must hold every message whose write returned nil, whole, once and in order, a failed write contributes a prefix of its message, and nothing may follow a torn message. write-timeout: two writers on a connection served with WriteTimeout 800 ms over a transport that stalls the first write 600 ms and the second 400 ms (virtual clock, preemption bound 3): both succeed, both messages whole. stale-connection: a write to a connection that has ended, after a new connection was created, never reaches the new connection's transport. close-during-write: one writer (200 / 4096 / 5120 bytes) whose transport write stalls half way and an application goroutine closing the connection at every instant (preemption bound 3): the transport never receives more than a prefix of the message. sizes: every message size 32..8300 (multiples of four) through WriteTo / Conn.Write / WriteToWithRetry on a fault-free connection: the transport holds exactly the message as soon as the write has returned.",
+		Rule: "A Server with ReadTimeout 500 ms and no WriteTimeout whose handler answers through a transport that stalls 900 ms mid-write, an application goroutine writing behind it (384 B and 5 KiB messages, virtual clock). schedules: W in {2,3} writer threads, 1-2 messages each with sizes from {200 B, 2 KiB, 5 KiB} (below/above the 1 KiB pooled serialisation buffer and the 4 KiB bufio buffer) written to one diam.Conn through Message.WriteTo, Conn.Write with caller-serialised bytes and Message.WriteToStreamWithRetry (rotating per writer and message) over an in-memory transport whose Write stalls between two pieces; every schedule up to the preemption bound (W=2: bound 2 quick / unbounded thorough; W=3: bound 2 / 3), happens-before state caching. faults: every sequence of write outcomes (bytes accepted k in {0,1,n/2,n-1,n} x {temporary - alternately a plain one and one that is also a timeout -, permanent, nil}) of length <= retries+1 for retries 0..3, and of length <=3 for the retry budgets 2^31, 2^32, 2^63, 2^64-2 and 2^64-1 (what a caller passes to mean 'keep retrying'), against writeRetry (io.Writer) and writeStreamRetry (MultistreamWriter), and through a diam.Conn over a faulting transport with two messages of sizes {200+2048, 5000+200, 200+5000, 4116+6000} (below and above the connection's 4 KiB write buffer): the wire must hold every message whose write returned nil, whole, once and in order, a failed write contributes a prefix of its message, and nothing may follow a torn message. write-timeout: two writers on a connection served with WriteTimeout 800 ms over a transport that stalls the first write 600 ms and the second 400 ms (virtual clock, preemption bound 3): both succeed, both messages whole. stale-connection: a write to a connection that has ended, after a new connection was created, never reaches the new connection's transport. close-during-write: one writer (200 / 4096 / 5120 bytes) whose transport write stalls half way and an application goroutine closing the connection at every instant (preemption bound 3): the transport never receives more than a prefix of the message. sizes: every message size 32..8300 (multiples of four) through WriteTo / Conn.Write / WriteToWithRetry on a fault-free connection: the transport holds exactly the message as soon as the write has returned.",
 		Assume: []string{"data-race freedom between visible operations (audited separately with -race)", "the source rewriter and shims preserve Go semantics (shim unit tests)"},
 		QuickBudget: 100, ThoroughBudget: 1500,
 	}
@@ -76,6 +76,9 @@ func c07Scenarios(tier string) []*Scenario {
 	out = append(out, &Scenario{Name: "sizes/single-writer", Seq: c07Sizes})
 	out = append(out, &Scenario{Name: "stale-connection-write", Seq: c07StaleConn})
 	out = append(out, c07WriteTimeout(3))
+	for _, size := range []int{384, 5120} {
+		out = append(out, c07ReadTimeoutStall(size, 3))
+	}
 	for _, size := range []int{200, 4096, 5120} {
 		out = append(out, c07CloseDuringWrite(size, 3))
 	}
@@ -657,6 +660,65 @@ func c07WriteTimeout(bound int) *Scenario {
 		return strings.Join(v, " | ")
 	}
 	return &Scenario{Name: "write-timeout/two-writers-queued-behind-a-slow-transport", Body: body, Check: check, Bound: bound, Horizon: 5 * time.Second,
+		Outcome: func(s *vs.Sched) string { return fmt.Sprint(c07wt.errs, len(c07wt.conn.Out)) }}
+}
+
+// c07ReadTimeoutStall: a connection accepted by a Server with ReadTimeout 500 ms and no
+// WriteTimeout. The handler answers the request; the transport stalls 900 ms in the middle of that
+// write (virtual clock), and an application goroutine writes a second message behind it. The idle
+// timeout of the reader is no business of the writers: both messages arrive whole, both writes succeed.
+func c07ReadTimeoutStall(size, bound int) *Scenario {
+	mA, mB := c07msg(0, 0, size), c07msg(1, 0, size)
+	bA, _ := mA.Serialize()
+	bB, _ := mB.Serialize()
+	body := func() {
+		st := &c07wt
+		st.errs, st.done = [2]error{}, [2]bool{}
+		conn := vnet.NewConn("S")
+		conn.Pieces = 1
+		conn.WriteDelays = []time.Duration{900 * time.Millisecond}
+		st.conn = conn
+		var dc diam.Conn
+		lis := vnet.NewListener()
+		mux := diam.NewServeMux()
+		mux.HandleFunc("ALL", func(c diam.Conn, m *diam.Message) {
+			dc = c
+			vs.Touch(conn, "conn-known")
+			_, st.errs[0] = mA.WriteTo(c)
+			st.done[0] = true
+		})
+		srv := &diam.Server{Handler: mux, Dict: dict.Default, ReadTimeout: 500 * time.Millisecond}
+		hello, _ := diam.NewMessage(280, 0x80, 0, 5, 5, dict.Default).Serialize()
+		conn.Deliver(hello)
+		lis.Offer(vnet.AcceptItem{Conn: conn})
+		vs.GoNamed("serve", false, func() { srv.Serve(lis) })
+		vs.GoNamed("writer1", false, func() {
+			vs.BlockObj("wait-conn", conn, func() bool { return dc != nil })
+			_, st.errs[1] = mB.WriteTo(dc)
+			st.done[1] = true
+		})
+	}
+	check := func(s *vs.Sched) string {
+		st := &c07wt
+		var v []string
+		for i, who := range []string{"the handler's answer", "the application goroutine's message"} {
+			if !st.done[i] {
+				v = append(v, who+": WriteTo never returned")
+			} else if st.errs[i] != nil {
+				v = append(v, fmt.Sprintf("%s: WriteTo reported %v although no WriteTimeout is configured and the transport only stalled", who, st.errs[i]))
+			}
+		}
+		out := st.conn.Out
+		ab, ba := append(append([]byte{}, bA...), bB...), append(append([]byte{}, bB...), bA...)
+		if !bytes.Equal(out, ab) && !bytes.Equal(out, ba) {
+			v = append(v, fmt.Sprintf("the transport received %d bytes that are not the two messages back to back (%d expected)", len(out), len(ab)))
+		}
+		for _, p := range s.Panics() {
+			v = append(v, "panic: "+p)
+		}
+		return strings.Join(v, " | ")
+	}
+	return &Scenario{Name: fmt.Sprintf("read-timeout/answer-written-through-a-stalled-transport/%d", size), Body: body, Check: check, Bound: bound, Horizon: 5 * time.Second,
 		Outcome: func(s *vs.Sched) string { return fmt.Sprint(c07wt.errs, len(c07wt.conn.Out)) }}
 }
 
